@@ -198,6 +198,23 @@ def check_state(case, ctx):
     ctx.close('symmetry', K, K.T, 1e-13, bucket=name + '.symmetry')
     _w_only(ctx, K, pd, row0, own, name)
     ctx.ok(np.array_equal(c, c_before), name + '.input-mutated', 'caller state vector was modified')
+    # the legacy entry point Panel.lb(c=...) builds the same state-based matrix; nx=None / ny=None are its documented "use the panel's
+    # own integration orders" form (attributes nx, ny - different from each other whenever m != n)
+    if size == own and case.get('via_lb') and Fuse is None:
+        q = pkg.make_panel(case)
+        q.num_eigvalues = 1
+        try:
+            with quiet():
+                q.lb(c=c.copy(), nx=None, ny=None, silent=True)
+        except Exception:
+            pass        # whether the eigen-problem of this state is solvable is not the subject; the matrix is stored before the solve
+        if q.kG0 is not None:
+            q2 = pkg.make_panel(case)
+            with package(name + '.direct'):
+                Kd = dense(q2.calc_kG0(c=c.copy(), nx=q2.nx, ny=q2.ny, silent=True))
+            ctx.label('via-Panel.lb:' + ('nx!=ny' if q2.nx != q2.ny else 'nx==ny'))
+            ctx.close('Panel.lb(c, nx=None, ny=None).kG0 == calc_kG0(c, nx=p.nx, ny=p.ny)', dense(q.kG0), Kd, 1e-12,
+                      bucket=name + '.via-Panel.lb', scale=np.max(np.abs(Kd)) or 1.)
     if Fuse is not None:
         ctx.ok(np.array_equal(Fuse, F_before), name + '.input-mutated', 'caller laminate table was modified')
 
@@ -276,6 +293,7 @@ def _state_strategy(draw, tier='quick'):
     case['ny'] = draw(st.one_of(st.integers(2, 12), st.sampled_from([16, 33, 64])))
     case['table'] = draw(st.sampled_from(['none', 'uniform-table', 'varying']))
     case['table_layout'] = draw(st.sampled_from(['C', 'C', 'F', 'T', 'strided']))
+    case['via_lb'] = draw(st.booleans())
     case['tv'] = [draw(gen.fl(-1., 1.)) for _ in range(3)]
     return case
 
